@@ -4,6 +4,7 @@ from . import runloop
 
 def run(ctx, rep):
     runloop.r13a(ctx, rep)
+    runloop.r13g(ctx, rep)
     runloop.r13b(ctx, rep)
     runloop.r13c(ctx, rep)
     runloop.r13d(ctx, rep)
